@@ -28,6 +28,9 @@ def core (r : Ring) : List Pt := r.dropLast
 /-- the vertices of a line that must be pairwise distinct: all of them, or all but the closing one -/
 def lineVerts (l : List Pt) : List Pt := if closed l then l.dropLast else l
 
+/-- membership test through `DecidableEq` -/
+def memB (v : Pt) (l : List Pt) : Bool := l.any fun w => decide (v = w)
+
 /-- `isSub a b`: `a` is a subsequence of `b` -/
 def isSub : List Pt → List Pt → Bool
   | [], _ => true
@@ -84,7 +87,7 @@ def shellOutside (a b : List Ring) : Bool :=
 /-- contact-free validity of a set of lines and polygons (see the header) -/
 def strictlyValid (lines : List (List Pt)) (polys : List (List Ring)) : Bool :=
   let rings := polys.flatMap id
-  lines.all (fun l => decide (2 ≤ l.length)) &&
+  lines.all (fun l => decide ((if closed l then 4 else 2) ≤ l.length)) &&
   rings.all (fun r => closed r && decide (4 ≤ r.length)) &&
   decide ((lines.flatMap lineVerts ++ rings.flatMap core).Nodup) &&
   allPairs segOKStrict (lines.flatMap segs ++ rings.flatMap segs) &&
@@ -141,7 +144,7 @@ def normSeg (s : Seg) : Seg :=
 
 def segCount (all : List Seg) (s : Seg) : Nat := (all.filter (sameSeg s)).length
 
-def ringCountOf (rings : List Ring) (v : Pt) : Nat := (rings.filter fun r => (core r).contains v).length
+def ringCountOf (rings : List Ring) (v : Pt) : Nat := (rings.filter fun r => memB v (core r)).length
 
 /-- cyclic consecutive pairs of a ring given by its core -/
 def cycPairs (c : List Pt) : List Seg :=
@@ -157,12 +160,17 @@ def span (c : List Pt) (u v : Pt) : List Seg :=
   let len := if i < j then j - i else c.length - i + j
   (edges (r ++ r.take 1)).take len
 
+/-- the output ring's vertices in the orientation of the input ring (`CoverageRingEdges::buildRing` may return a ring
+with the opposite orientation) -/
+def alignedCore (inp out : Ring) : List Pt :=
+  if cyclicSub (core out) (core inp) then core out else (core out).reverse
+
 /-- one output ring against its input ring: every output segment replaces a stretch of input segments that was
 entirely shared (then the new segment is shared too: it occurs in exactly 2 output rings) or entirely on the
 boundary of the coverage (then it occurs once) -/
 def covRingOK (inAll outAll : List Seg) (inp out : Ring) : Bool :=
-  closed out && decide (4 ≤ out.length) && cyclicSub (core out) (core inp) &&
-  (cycPairs (core out)).all fun s =>
+  closed out && decide (4 ≤ out.length) && cyclicSub (alignedCore inp out) (core inp) &&
+  (cycPairs (alignedCore inp out)).all fun s =>
     let sp := span (core inp) s.1 s.2
     !sp.isEmpty &&
     ((sp.all (fun e => segCount inAll e == 2) && segCount outAll s == 2) ||
@@ -170,7 +178,7 @@ def covRingOK (inAll outAll : List Seg) (inp out : Ring) : Bool :=
 
 /-- vertices that lie on three or more rings stay in every ring that had them -/
 def covNodesOK (inRings : List Ring) (inp out : Ring) : Bool :=
-  (core inp).all fun v => decide (ringCountOf inRings v < 3) || (core out).contains v
+  (core inp).all fun v => decide (ringCountOf inRings v < 3) || memB v (core out)
 
 /-- with boundary preservation every boundary segment of the input is still there -/
 def covBoundaryOK (inAll : List Seg) (inp out : Ring) : Bool :=
